@@ -138,7 +138,7 @@ def main():
     r = subprocess.run(cmd, env=dict(env, CARGO_TARGET_DIR=TARGET + '-mir'), stdout=subprocess.PIPE, stderr=subprocess.PIPE)
     txt = r.stdout.decode('utf-8', 'replace')
     if 'fn ' not in txt: sys.stderr.write(r.stderr.decode()[-3000:]); sys.exit(2)
-    prog = M.Program(); M.parse_program(txt, HERE, prog, 'rws')
+    prog = M.Program(); M.parse_program(txt, HERE, prog, 'rws'); M.learn_user_enums(prog, os.path.join(HERE, 'src'))
     cap = {}
 
     def m_dbg(ex, st, c):
